@@ -61,7 +61,7 @@ func argDefs(r *core.Rand, o *SOpts) []*m.ArgDef {
 	n := 1 + r.Intn(3)
 	var as []*m.ArgDef
 	for i := 0; i < n; i++ {
-		a := &m.ArgDef{Name: sname(r, o), Type: Type(r, q, 2), Dirs: constDirs(r, o)}
+		a := &m.ArgDef{Name: sname(r, o), Type: Type(r, q, 2+r.Intn(3)), Dirs: constDirs(r, o)}
 		a.Desc, a.HasDesc = sdesc(r, o)
 		if r.Chance(1, 3) {
 			a.Default = Value(r, q, 2, true)
@@ -76,7 +76,7 @@ func fieldDefs(r *core.Rand, o *SOpts, input bool) []*m.FieldDef {
 	n := 1 + r.Intn(4)
 	var fs []*m.FieldDef
 	for i := 0; i < n; i++ {
-		f := &m.FieldDef{Name: sname(r, o), Type: Type(r, q, 2), Dirs: constDirs(r, o)}
+		f := &m.FieldDef{Name: sname(r, o), Type: Type(r, q, 2+r.Intn(3)), Dirs: constDirs(r, o)}
 		f.Desc, f.HasDesc = sdesc(r, o)
 		if input {
 			if r.Chance(1, 3) {
